@@ -78,7 +78,7 @@ def main():
         evs = run_schedule(wd / "r", 4, 12, 7, faults=True, timeout=120)
     finally:
         shutil.rmtree(wd, ignore_errors=True)
-    good = {"tid": "c04", "ev": evs}
+    good = {"tid": "c04", "victims": [], "ev": evs}
     cfg4 = dict(spec="TraceSpec", invariants=("WriterExclusive",))
     iw = next(i for i, e in enumerate(evs) if e["ev"] == "WBegin" and i > 5)
     ie = next(i for i, e in enumerate(evs) if e["ev"] == "WEnd")
